@@ -284,6 +284,15 @@ class Sym:
             if not (isinstance(node.args[1], ast.Constant) and node.args[1].value is None):
                 raise Untranslatable("dict.get default")
             return f"(List.lookup {k} {lean_ident(fn[:-4])})", "ostr"
+        if base == "endswith" and len(node.args) == 1 and isinstance(node.args[0], ast.Constant) and isinstance(node.args[0].value, str) \
+                and len(node.args[0].value) == 1 and node.args[0].value.isalnum():
+            e, t = self.expr(node.func.value, env)
+            self.need(t, "str")
+            return f"(pyEndsWith1 {e} '{node.args[0].value}' = true)", "prop"
+        if fn in ("min", "max") and len(node.args) == 1 and dotted(node.args[0]) in self.spec.get("unpack", {}) and len(self.spec["unpack"][dotted(node.args[0])]) == 2:
+            # Python's min / max of a pair (a, b): b if b < a else a  /  b if b > a else a
+            a, b = (env[c_][0] for c_ in self.spec["unpack"][dotted(node.args[0])])
+            return (f"(if {b} < {a} then {b} else {a})" if fn == "min" else f"(if {a} < {b} then {b} else {a})"), "num"
         if base == "lower" and not node.args:
             e, t = self.expr(node.func.value, env)
             self.need(t, "str")
@@ -489,6 +498,19 @@ class Sym:
             else:
                 tgt = s.target
                 value = ast.BinOp(left=s.target, op=s.op, right=s.value)
+            if isinstance(tgt, ast.Tuple) and isinstance(value, ast.Tuple) and len(tgt.elts) == len(value.elts) and all(dotted(e) for e in tgt.elts):
+                # a, b = e1, e2: both right-hand sides are evaluated first
+                vals = [self.expr(v, env) for v in value.elts]
+                env2 = dict(env)
+                lets = ""
+                for el, (e, t) in zip(tgt.elts, vals):
+                    if t == "prop":
+                        e, t = f"(decide {e})", "bool"
+                    self.counter += 1
+                    fresh = f"{lean_ident(dotted(el))}_{self.counter}"
+                    lets += f"let {fresh} : {LEAN_TYPES[t]} := {e}; "
+                    env2[dotted(el)] = (fresh, t)
+                return f"({lets}{self.run(rest, env2)})"
             name = target_name(tgt)
             env2 = dict(env)
             ds = self.dict_store(tgt, value, env)
@@ -1194,6 +1216,25 @@ TARGETS += [
          descend=["hvsr"], extends=["weights"],
          abstract={"len(self.azimuths)": ("n_azimuths_in", "int"), "int(np.sum(getattr(hvsr, mask)))": ("n_valid_in", "int")},
          params=[("n_azimuths_in", "int"), ("n_valid_in", "int")], out=["weights.extend.value", "weights.extend.count"], out_types=["num", "int"], option=True),
+]
+
+TARGETS += [
+    # readers (C07): one pass of the loop of `_arrange_traces` -- which "found" flag a channel name sets, refused when none applies -- and the sample-count check
+    dict(group="Readers", name="arrange_step", file="hvsrpy/data_wrangler.py", func="_arrange_traces", descend=["trace"],
+         params=[("trace.meta.channel", "str"), ("found_ew", "bool"), ("found_ns", "bool"), ("found_vt", "bool")],
+         out=["found_ew", "found_ns", "found_vt"], out_types=["bool", "bool", "bool"], option=True,
+         str_values=["BHE", "HHN", "EHZ", "E", "N", "Z", "HNE", "BHN", "BHZ", "XYZ", "bhe", "EN1", "Z2", "NE", "ZE"]),
+    dict(group="Readers", name="check_npts", file="hvsrpy/data_wrangler.py", func="_check_npts", check_args=["npts_header", "npts_found"],
+         params=[("npts_header", "int"), ("npts_found", "int")], out=["npts_header"], out_types=["int"], option=True),
+    # SESAME (C16): trimming to the search range -- the limits are min / max of the pair, the distances are taken to those limits, the slice runs from the first
+    # nearest sample of the lower limit through the first nearest sample of the upper limit
+    dict(group="Sesame", name="trim_curve_indices", file="hvsrpy/sesame.py", func="trim_curve", consts={"verbose": 0},
+         unpack={"search_range_in_hz": ["range_a", "range_b"]},
+         abstract={"np.where(rel_frq_low == np.min(rel_frq_low))[0][0]": ("first_nearest_low", "int"),
+                   "np.where(rel_frq_upp == np.min(rel_frq_upp))[0][0]": ("first_nearest_upp", "int")},
+         params=[("range_a", "num"), ("range_b", "num"), ("frequency", "num"), ("first_nearest_low", "int"), ("first_nearest_upp", "int")],
+         out=["low_limit", "upp_limit", "rel_frq_low", "rel_frq_upp", "lower_index", "upper_index"], out_types=["num", "num", "num", "num", "int", "int"],
+         stop_before="frequency"),
 ]
 
 GROUPS = ["Weights", "Fft", "TimeRej", "Combine", "Azimuth", "Orient", "Windows", "Stats", "Sesame", "Fdwra", "Psd", "Nyquist", "Spatial", "Split", "Readers", "Peaks", "Trim", "ObjectIO"]
